@@ -152,6 +152,7 @@ class simplify_chained_calls(FuncADLNodeTransformer):
     def __init__(self):
         self._arg_stack = argument_stack()
         self._visit_depth = 0
+        self._method_attributes: List[ast.Attribute] = []
 
     def visit(self, node: ast.AST):
         if self._visit_depth == 0:
@@ -480,6 +481,13 @@ class simplify_chained_calls(FuncADLNodeTransformer):
                 return self.visit(func.body)
         elif _is_method_call_on_first(call_node):
             return self.select_method_call_on_first(call_node)
+        elif isinstance(call_node.func, ast.Attribute):
+            # The attribute of a method call is the method's name, not a projection
+            self._method_attributes.append(call_node.func)
+            try:
+                return FuncADLNodeTransformer.visit_Call(self, call_node)
+            finally:
+                self._method_attributes.pop()
         else:
             return FuncADLNodeTransformer.visit_Call(self, call_node)
 
@@ -622,5 +630,13 @@ class simplify_chained_calls(FuncADLNodeTransformer):
             r = self.visit_Subscript_Dict_with_value(visited_value, node.attr)
             if r is not None:
                 return r
+
+        # The First() may only have appeared once the value was simplified
+        if is_call_of(visited_value, "First") and not any(
+            node is m for m in self._method_attributes
+        ):
+            return self.visit_Attribute_Of_First(
+                visited_value.args[0], node.attr  # type: ignore
+            )
 
         return ast.Attribute(value=visited_value, attr=node.attr, ctx=ast.Load())
